@@ -42,10 +42,12 @@ PTriples(t, i, strip, acc) ==
                             ELSE [ok |-> TRUE, ts |-> acc1]
 ParseTriples(text) == PTriples(Lex(text, TRUE), 1, FALSE, <<>>)
 \* lists that the notation can carry: symbols as sources, symbols or quoted strings as targets
+\* (a symbol may begin with the conjunction sign: the sign written by the formatter stands alone, and a sign glued to the next
+\* role is one character, so "^^up" is the sign and the role "^up")
 TripleSafeSym(x) == LET l == Lex(x, TRUE) IN Len(l) = 1 /\ l[1].type = "SYMBOL" /\ l[1].text = x
-                    /\ ~HasChar(x, ",") /\ ~StartsWith(x, "^")
+                    /\ ~HasChar(x, ",") /\ x # "^"
 TripleSafeTarget(x) == LET l == Lex(x, TRUE) IN Len(l) = 1 /\ l[1].text = x
-                       /\ (l[1].type = "STRING" \/ (l[1].type = "SYMBOL" /\ ~HasChar(x, ",") /\ ~StartsWith(x, "^")))
+                       /\ (l[1].type = "STRING" \/ (l[1].type = "SYMBOL" /\ ~HasChar(x, ",") /\ x # "^"))
 TripleSafe(ts) == Len(ts) >= 1 /\ \A k \in DOMAIN ts :
                     /\ TripleSafeSym(ts[k][1])
                     /\ TripleSafeSym(StripColons(ts[k][2])) /\ ":" \o StripColons(ts[k][2]) = ts[k][2]
